@@ -220,7 +220,7 @@ def check_history(case, ctx: Ctx):
         elif name in ("imul_negative", "imul_str", "imul_list", "imul_hist"):
             if name == "imul_negative" and not np.any(np.asarray(h.frequencies) != 0):
                 continue
-            operand = {"imul_negative": -2, "imul_str": "2", "imul_list": [2] * max(1, h.shape[0]), "imul_hist": other()}[name]
+            operand = {"imul_negative": -2 if k % 2 else -1.5, "imul_str": "2", "imul_list": [2] * max(1, h.shape[0]), "imul_hist": other()}[name]
             def f():
                 nonlocal h
                 h *= operand
@@ -448,6 +448,15 @@ def histories(draw, tier="quick"):
 
         spec["err2"] = fill_big(spec["freq"])
         ops.insert(draw(st.integers(0, min(2, len(ops)))), ["merge", draw(st.sampled_from([2, 3]))])
+    if spec["dtype"] == "int64" and spec["err2"] is None and draw(st.integers(0, 3)) == 0:
+        # a content that no float type holds exactly: a refused call must not leave it rounded ("promoted losslessly")
+        it = iter([2 ** 53 + 1] + hgen.flat(spec["freq"])[1:])
+
+        def refill(x):
+            return [refill(y) for y in x] if isinstance(x, list) else next(it)
+
+        if hgen.flat(spec["freq"]):
+            spec["freq"] = refill(spec["freq"])
     if adaptive and draw(st.booleans()):
         # an adaptive operand over another range joins in, and the histogram keeps growing afterwards
         i = draw(st.integers(0, len(ops)))
